@@ -265,6 +265,15 @@ def _gen_probe_step(rng, sim, named):
     if not nonsegs or not pool:
         return None
     groups = [(n, x) for n, x in named if x.rt in ("O", "U")]
+    if named and rng.random() < 0.1:
+        # a new tag of a line of the Gfa is assigned, without a declared datatype, a value which the
+        # default datatype of its class cannot hold (refused at level 3 only)
+        n, x = rng.choice(named)
+        tn = rng.choice(["qx", "qy", "q1"])
+        if not any(t[0] == tn for t in x.tags):
+            return {"op": "settag-default", "name": n, "text": x.text(), "rt": x.rt, "tag": tn,
+                    "value": rng.choice(["a\tb", "x\ny", "@inf", "@nan", [2 ** 32, 1], [1, -2 ** 31 - 1]]),
+                    "line": x.rt + "\t(tag of a connected line)", "expect": "probe", "poke": ["-", "-"]}
     if v == "gfa2" and groups and segs and rng.random() < 0.12:
         # a further line of a group which lists the group itself (a single line doing so is refused)
         n, x = rng.choice(groups)
@@ -502,6 +511,10 @@ def _find_model_rec(sim, st):
     if st.get("name") is not None:
         r = sim.by_name(st["name"])
         if r is not None:
+            if st.get("rt") and r.rt != st["rt"]:
+                # (the step was generated for a record of another type which carried this identifier
+                #  in the generator's model: a probe it took for accepted was refused)
+                return None
             return r
     for r in sim.recs:
         if r.text() == st.get("text"):
@@ -623,6 +636,18 @@ def do_step(ctx, g, st, version, vlevel):
             l.set_datatype(st["tag"], st["dt"])
             l.set(st["tag"], py_tag_value(st["dt"], st["value"]))
         return call(ctx, "set(tag)", sett)
+    if op == "settag-default":
+        val = st["value"]
+        if isinstance(val, str) and val.startswith("@"):
+            val = float(val[1:])
+        out = call(ctx, "set(new tag, no datatype)", l.set, st["tag"], val)
+        if not out.ok:
+            left = call(ctx, "get_datatype", l.get_datatype, st["tag"])
+            if st["tag"] in l.tagnames or (left.ok and left.value is not None):
+                ctx.violation("state-changed-by-failed-call/refused-tag-left-behind/%s" % st["rt"],
+                              "set(%r, %r) on %r raised %s; tagnames %r, datatype %r"
+                              % (st["tag"], val, st["text"], out.cls(), l.tagnames, left.value if left.ok else left.cls()), prop="C08")
+        return out
     if op == "deltag":
         return call(ctx, "delete(tag)", l.delete, st["tag"])
     if op == "setfield":
